@@ -183,6 +183,17 @@ def check_case(ctx, net, cfg, tag, seen, perms=None):
             ctx.violation("crnautomorphism-count", wit, f"CRNAutomorphism count {cs['automorphism_count']} != {len(autos2)}")
         elif {frozenset(o) for o in cs["orbits"]} != B.orbits_from(list(ca.G.nodes), autos2):
             ctx.violation("crnautomorphism-orbits", wit, f"CRNAutomorphism orbits {cs['orbits']}")
+        else:
+            # the dedicated accessor has to report the same orbits as the summary
+            try:
+                ob = ca.orbits(max_count=10**6, timeout_sec=None)
+                ob = ob.get("orbits", ob) if isinstance(ob, dict) else ob
+                same = {frozenset(o) for o in ob} == {frozenset(o) for o in cs["orbits"]}
+            except Exception as e:
+                same, ob = False, f"{type(e).__name__}: {e}"
+            ctx.count("crn_automorphism_orbits_accessor_checked")
+            if not same:
+                ctx.violation("crnautomorphism-orbits", {**wit, "accessor": "orbits()"}, f"CRNAutomorphism.orbits() -> {ob}; summary orbits {cs['orbits']}")
     # (2) invariance under renaming / reordering / id regeneration
     variants = []
     if perms:
